@@ -22,7 +22,8 @@ func init() {
 		assumptions: commonAssumptions}})
 }
 
-var c12Pool = mon.Numerals
+// (the shared numeral pool plus two numerals at the small end of the range: their difference underflows it)
+var c12Pool = append(append([]string{}, mon.Numerals...), "1.5E-130", "-5E+125")
 
 func f64(s string) float64 { f, _ := strconv.ParseFloat(s, 64); return f }
 
@@ -181,6 +182,26 @@ func (p *c12) pairChecks(x *res, a, b string, ctx *runner.Ctx) {
 		if got == "panic" {
 			x.viol("runtime-panic", site, fmt.Sprintf("%s with n=%s :v=%s: panic %s", kind, a, b, msg), map[string]interface{}{"a": a, "b": b, "kind": kind})
 			continue
+		}
+		// a result whose MAGNITUDE no DynamoDB number can have (beyond 9.99E+125, or nearer to zero than 1E-130) is
+		// refused ("Number overflow" / "Number underflow"): it is never stored - the item could not be written back
+		if da, ea := val.ParseDec(a); ea == nil {
+			if db, eb := val.ParseDec(b); eb == nil {
+				exact := da.Add(db)
+				switch kind {
+				case "minus":
+					exact = da.Sub(db)
+				case "minus-vp":
+					exact = db.Sub(da)
+				}
+				if !exact.MagnitudeInRange() {
+					x.r.Counters["results_out_of_range"]++
+					if got == "ok" {
+						x.viol("arith-out-of-range-stored", kind, fmt.Sprintf("%s with n=%s :v=%s: the exact result %s is outside the range of DynamoDB numbers, but the update succeeds and stores %s", kind, a, b, exact.String(), after["n"].Canon()), map[string]interface{}{"a": a, "b": b, "kind": kind, "got": after["n"]})
+					}
+					continue
+				}
+			}
 		}
 		if want.Unsure || want.Reject || (want.OrReject && got == "reject") {
 			continue // result does not fit 38 digits / exponent range: reject or anything admitted
